@@ -180,3 +180,49 @@ contract('gnpy.topology.topology_parameters.BaseParams.update_attr', props=['C16
                   ('given_values_taken', "self.request_id == kwargs['request_id'] and iff(self.bidir, kwargs['bidir']) and "
                                          "self.effective_freq_slot is None")],
          modifies=['self.*'], use_at_calls=False)
+
+# ================================================================== C11 edge weights: the weight of a link leaving a fibre (of any
+# kind) is that fibre's length, 0.01 for every other link (real body of the connection loop of network_from_json)
+from pyvc.vals import Obj as _Obj, Builtin as _Builtin
+
+
+def GRAPH():
+    def b(c, label):
+        o = _Obj('<ns>', {'ghost_edges': []}, label=label)
+        o.fields['add_edge'] = _Builtin('add_edge', lambda it, a, k, o=o: o.fields['ghost_edges'].append([a[0], a[1], k.get('weight')]))
+        return o
+    b.recipe = ('obj', '<ns>', {})
+    b.fields = {}
+    b.cls = '<ns>'
+    return b
+
+
+for _cls, _fibre in (('Fiber', True), ('RamanFiber', True), ('Edfa', False), ('Roadm', False), ('Fused', False)):
+    contract('gnpy.tools.json_io.network_from_json', name=f'gnpy.tools.json_io.network_from_json[connection loop body, link leaving a {_cls}]',
+             loop=3, props=['C11'], use_at_calls=False,
+             params={'cx': dct(from_node=const('a'), to_node=const('b')), 'g': GRAPH(),
+                     'nodes': dct_k({'a': obj(_cls, uid=const('a'), params=obj('<ns>', length=real())), 'b': obj('Edfa', uid=const('b'))})},
+             ensures=[('one_edge_between_the_named_elements', "len(g.ghost_edges) == 1 and g.ghost_edges[0][0] is nodes['a'] and g.ghost_edges[0][1] is nodes['b']"),
+                      ('weight', "g.ghost_edges[0][2] == " + ("nodes['a'].params.length" if _fibre else '0.01'))],
+             modifies=['g.ghost_edges[*]'])
+
+# requests that are disjoint from different sets of partners are different requests (merging them would drop a constraint)
+_RQC = dict(source=const('trx A'), destination=const('trx B'), tsp=const('t'), tsp_mode=const('m'), baud_rate=const(32e9),
+            nodes_list=const(['trx B']), loose_list=const(['STRICT']), spacing=const(50e9), power=const(0.001), nb_channel=const(80),
+            f_min=const(191.3e12), f_max=const(196.1e12), format=const('m'), OSNR=const(11), roll_off=const(0.15), tx_power=const(0.001),
+            bidir=const(False))
+
+
+def _DJ(*ids):
+    return obj('<ns>', disjunction_id=string(), disjunctions_req=const(list(ids)))
+
+
+for _lab, _groups, _same in (('partners {d} and {d, c}', [('a', 'd'), ('b', 'd'), ('b', 'c')], False),
+                             ('partners {d, c} and {d}', [('a', 'd'), ('a', 'c'), ('b', 'd')], False),
+                             ('same partners {d}', [('a', 'd'), ('b', 'd')], True),
+                             ('one of them in no group', [('a', 'd')], False)):
+    contract('gnpy.topology.request.compare_reqs', name=f'gnpy.topology.request.compare_reqs[otherwise identical, {_lab}]',
+             props=['C12', 'C16', 'C19'],
+             params={'req1': obj('<ns>', request_id=const('a'), **_RQC), 'req2': obj('<ns>', request_id=const('b'), **_RQC),
+                     'disjlist': lst(*[_DJ(*g) for g in _groups])},
+             ensures=[('merged_only_with_the_same_partners', f'iff(result, {_same})')], use_at_calls=False, modifies=[])
